@@ -249,6 +249,12 @@ func runAppProcess(c *child.Ctx, bin string, args []string, stdin []byte, k appC
 	if k.HookProfile != "" {
 		cmd.Env = append(cmd.Env, "VHOOK_PROFILE="+k.HookProfile, fmt.Sprintf("VHOOK_SEED=%d", k.ID))
 	}
+	if k.ID%4 == 1 {
+		// collect garbage as often as possible: whatever the program only keeps alive by
+		// accident (finalizers on wrappers of its standard streams, buffers handed to
+		// another goroutine) goes early instead of after megabytes
+		cmd.Env = append(cmd.Env, "GOGC=1")
+	}
 	cmd.Env = append(cmd.Env, extraEnv...)
 	var res procResult
 	var outMu sync.Mutex
@@ -1048,15 +1054,36 @@ func monC10(c *child.Ctx, replay json.RawMessage) {
 			in = in[:30000]
 			known = false
 		}
+		if i == 1 && c.Batch == 0 || c.Thorough() && i%100 == 1 {
+			// a long session through one process: megabytes of frames and other data
+			in, frames, known = nil, nil, true
+			for len(in) < 3000000 {
+				f := gen.RandFrame(r)
+				in = append(in, f.Bytes...)
+				frames = append(frames, f.Bytes...)
+				if r.Chance(1, 5) {
+					in = append(in, gen.Junk(r).Bytes...)
+				}
+			}
+			c.Count("long_process_sessions", 1)
+		}
 		k := appCase{ID: 200000 + i, App: "rtcmfilter", Input: hexs(in), Expect: hexs(frames), HasExpect: known, Process: true, Display: i%4 >= 2, Record: i%2 == 1,
 			StdinMode: []string{"file", "pipe"}[r.Intn(2)], StdoutMode: []string{"fast", "slow"}[r.Intn(2)], Chunk: []int{0, 1, 64}[r.Intn(3)], ReaderUs: []int{0, 200}[r.Intn(2)],
 			Procs: []int{1, 2, 16}[r.Intn(3)], HookProfile: []string{"", "y200x2", "s10u200"}[r.Intn(3)]}
+		if len(in) > 1000000 {
+			k.Chunk, k.ReaderUs, k.Display, k.HookProfile = 0, 0, false, ""
+		}
 		if k.Chunk == 1 && len(in) > 3000 {
 			in = in[:3000]
 			k.Input = hexs(in)
 			k.HasExpect = false
 		}
 		cj := c.BeginV(k)
+		if len(in) > 1000000 {
+			kk := k
+			kk.Input, kk.Expect = fmt.Sprintf("(%d bytes: frames and other data from seed)", len(in)), ""
+			cj = c.BeginV(kk)
+		}
 		dir := filepath.Join(c.WorkDir, fmt.Sprintf("proc%d", i))
 		os.MkdirAll(dir, 0755)
 		logDir := filepath.Join(dir, "msglog")
